@@ -26,7 +26,7 @@ import (
 
 func init() {
 	register(&Prop{ID: "C17", Run: runC17, Race: true, Workers: 8, MinNontrivial: 300,
-		Rule:        "race-detector build; (a) first-use rounds: a fresh SP per round is hit at a barrier by 8-16 goroutines whose first operation needs the lazily built signing context (document builders, POST body, both redirect builders, Sign*, SigningContext), with the signingctx.* hooks yielding or sleeping 0-200us to widen the window; rounds in which >= 2 goroutines were inside the slow path are counted; (b) one long-lived SP per key configuration under 16 goroutines x a seeded mix of every public operation (build, sign, redirect, POST, metadata, validation of genuine and hostile SSO responses and logout messages, the unverified decoders); (c) sequential purity: configuration snapshot before/after, repeated calls, mutation of every returned result; oracle: zero race-detector reports; every concurrent result equals the result of the same operation computed on a private identical SP beforehand (random IDs and ECDSA signatures compared by validity, not bytes); configuration snapshot unchanged; repeated call same outcome; later results unaffected by mutation; non-trivial = operations checked; distinct by (phase, operation, input index); one caller-assembled document shared by all goroutines through the redirect and POST helpers; encryption keys without precomputed CRT values; returned values scribbled over in place; four goroutines validating on a provider without a clock, configuration compared afterwards; fixtures with blank entries in the requested authentication contexts; first-use rounds mixing metadata / validation calls among the signing ones with jittering field key stores, a round whose unfinished calls are all parked on locks with unchanged frames over five seconds is reported as never returning; class identical-validations-at-once (the same bytes validated by 4-12 goroutines at once, each result checked then scribbled over in turn); purity of the Sign* functions (the element passed in is unchanged after the returned one is altered) and of Validate / VerifyAssertionConditions on a decoded Response (indicators included)",
+		Rule:        "race-detector build; (a) first-use rounds: a fresh SP per round is hit at a barrier by 8-16 goroutines whose first operation needs the lazily built signing context (document builders, POST body, both redirect builders, Sign*, SigningContext), with the signingctx.* hooks yielding or sleeping 0-200us to widen the window; rounds in which >= 2 goroutines were inside the slow path are counted; (b) one long-lived SP per key configuration under 16 goroutines x a seeded mix of every public operation (build, sign, redirect, POST, metadata, validation of genuine and hostile SSO responses and logout messages, the unverified decoders); (c) sequential purity: configuration snapshot before/after, repeated calls, mutation of every returned result; oracle: zero race-detector reports; every concurrent result equals the result of the same operation computed on a private identical SP beforehand (random IDs and ECDSA signatures compared by validity, not bytes); configuration snapshot unchanged; repeated call same outcome; later results unaffected by mutation; non-trivial = operations checked; distinct by (phase, operation, input index); one caller-assembled document shared by all goroutines through the redirect and POST helpers; encryption keys without precomputed CRT values; returned values scribbled over in place; four goroutines validating on a provider without a clock, configuration compared afterwards; fixtures with blank entries in the requested authentication contexts; first-use rounds mixing metadata / validation calls among the signing ones with jittering field key stores, a round whose unfinished calls are all parked on locks with unchanged frames over five seconds is reported as never returning; class identical-validations-at-once (the same bytes - in every second round with assertions encrypted under RSA-OAEP with an explicit SHA-1 / SHA-256 / SHA-512 digest - validated by 4-12 goroutines at once, each result checked then scribbled over in turn); purity of the Sign* functions (the element passed in is unchanged after the returned one is altered) and of Validate / VerifyAssertionConditions on a decoded Response (indicators included)",
 		Assumptions: []string{"the race detector only sees executed interleavings", "SigningContext()'s return value is the SP's shared configuration object and is never mutated by the monitor"}})
 }
 
@@ -648,6 +648,25 @@ func runC17(c *mon.Ctx) {
 		r := cs.Rand()
 		w := NewWorld(now)
 		g := GenGenuine(r, w, GenOpts{MaxAssertions: 2, NoCR: true})
+		encDesc := ""
+		if k%2 == 1 {
+			// every second round: encrypted assertions, the content key wrapped with RSA-OAEP under an explicit digest
+			// (whatever the decryption path keeps between calls - digests, ciphers, parsed keys - is then shared by the callers)
+			for try := 0; try < 12; try++ {
+				g = GenGenuine(r, w, GenOpts{MaxAssertions: 2, NoCR: true, AllowEnc: true})
+				for _, a := range g.Rec.Assertions {
+					if a.Enc != nil {
+						a.Enc.KeyAlg = pick(r, []string{sim.RSAOAEP, sim.RSAOAEP11})
+						a.Enc.Digest = sim.S(pick(r, []string{sim.DigSHA256, sim.DigSHA512, sim.DigSHA256, sim.DigSHA1}))
+						encDesc += " " + a.Enc.String()
+					}
+				}
+				if encDesc != "" {
+					c.Count("identical-validations.encrypted-rounds", 1)
+					break
+				}
+			}
+		}
 		doc, err := sim.BuildResponse(g.Rec, g.Style)
 		if err != nil {
 			cs.Inconclusive("simulator-error")
@@ -690,7 +709,7 @@ func runC17(c *mon.Ctx) {
 			}(i)
 		}
 		close(start)
-		cs.Desc("goroutines=%d assertions=%d", G, len(g.Rec.Assertions))
+		cs.Desc("goroutines=%d assertions=%d encrypted=%q", G, len(g.Rec.Assertions), encDesc)
 		cs.Input([]byte(doc))
 		if returned, blocked := WaitRound(&wg, 20*time.Second); !returned {
 			if blocked != "" {
